@@ -140,6 +140,18 @@ def units():
                   "cbmc_flags": ["--object-bits", "9", "--unwind", str(budget + 3), "--unwindset", "strlen.0:260,strcmp.0:64"], "timeout": 900, "mem_gb": 24, "drop_flags": ["--signed-overflow-check"],
                   "kind": "bounded(file ends after %d header reads; chunk loop unwound completely under that bound)" % budget, "tier": "thorough",
                   "trusted": ["E1 model of psf_binheader_readf driven by the format string", "file length / position answers unconstrained until the end of file"]})
+    WAVFMT = [("PCM_U8", 1), ("PCM_16", 2), ("PCM_24", 3), ("PCM_32", 4), ("FLOAT", 4), ("DOUBLE", 8), ("ULAW", 1), ("ALAW", 1), ("IMA_ADPCM", 0), ("MS_ADPCM", 0), ("GSM610", 0)]
+    for sub, bw in (WAVFMT if os.environ.get("VERIF_WIP_WAVFMT") else []):
+        for ch in (1, 2):
+            if sub == "GSM610" and ch == 2:
+                continue
+            U.append({"name": "wav.fmt_chunk_pair.%s.ch%d" % (sub, ch), "props": ["C04", "C10"], "harness": "wav_fmt_pair.harness.c", "entry": "h_wav_fmt_pair", "dfcc": False,
+                      "function": "wav.c:wav_write_fmt_chunk + wavlike.c:wavlike_read_fmt_chunk (with common.c psf_binheader_writef/readf)",
+                      "link_sources": ["wavlike.c", "common.c"], "defines": ["-DCH=%d" % ch, "-DSUBFORMAT=SF_FORMAT_" + sub, "-DBW=%d" % bw, "-include", "/verif/spec/abi_vaarg.h"],
+                      "pre_gi_flags": ["--remove-function-body", "psf_log_printf"], "cbmc_flags": ["--object-bits", "9", "--unwind", "70", "--unwindset", "strlen.0:520,memcmp.0:20"],
+                      "timeout": 900, "tier": "quick" if (sub, ch) in (("PCM_16", 2), ("PCM_24", 1), ("FLOAT", 2), ("ULAW", 1), ("IMA_ADPCM", 2), ("MS_ADPCM", 1)) else "thorough",
+                      "kind": "proof(pair lemma; encoding and channels enumerated; sample rate symbolic up to 2^19)",
+                      "trusted": ["spec/abi_vaarg.h (variadic int arguments fetched as size_t)", "MS ADPCM coefficient table stand-in (28 bytes of header)"]})
     # WAV length bookkeeping (DFCC): header writer and tailer
     for bw in (0, 2, 3):
         for ch in (1, 2):
